@@ -474,6 +474,8 @@ class _Inliner:
             if getattr(st, "value", None) is None:
                 return None
             holder, field = st, root_field
+        elif isinstance(st, ast.Raise) and st.exc is not None and st.cause is None:
+            holder, field = st, "exc"  # `raise make_error(..)`: the factory's body, then `raise <its result>`
         elif isinstance(st, ast.If) and not isinstance(st, InlineBlock) and isinstance(st.test, ast.BoolOp) and isinstance(st.test.op, ast.And) and not st.orelse:
             # `if a and helper(..) [and c]: body`  ->  `if a: <inlined>; if <result> [and c]: body`
             for i in range(1, len(st.test.values)):
